@@ -78,13 +78,24 @@ const (
 	EndOfAuditLogChainMessage = "End of current audit log chain"
 )
 
+// splitIntegrity splits a plaintext/CEF log line into the authenticated data and the integrity part.
+// The integrity check is always appended last by the formatter hook, so the line is split at the last
+// occurrence of the token: messages and field values are free to contain " integrity=" themselves.
+func splitIntegrity(rawData string) ([]string, bool) {
+	index := strings.LastIndex(rawData, DataSplitToken)
+	if index < 0 {
+		return nil, false
+	}
+	return []string{rawData[:index], rawData[index+len(DataSplitToken):]}, true
+}
+
 // ParseEntry parse cef log line with next expected input example and return ParsedLogEntry:
 // CEF:0|<value>|<value>|<value>|100|<value>|1|unixTime=<value> integrity=<value> chain=<value>
 // CEF:0|<value>|<value>|<value>|100|<value>|1|unixTime=<value> integrity=<value>
 func (parser *CefLogParser) ParseEntry(rawData string) (*ParsedLogEntry, error) {
 	parsedLogEntry := &ParsedLogEntry{}
-	rawLogEntry := strings.Split(rawData, DataSplitToken)
-	if len(rawLogEntry) != 2 {
+	rawLogEntry, ok := splitIntegrity(rawData)
+	if !ok {
 		return nil, ErrCefIntegrityExtract
 	}
 	parsedLogEntry.RawData = []byte(rawLogEntry[0])
@@ -114,8 +125,8 @@ func (parser *CefLogParser) ParseEntry(rawData string) (*ParsedLogEntry, error) 
 // time="<value>" level=<value> msg="<value>" version=<value> integrity=<value>
 func (parser *PlaintextLogParser) ParseEntry(rawData string) (*ParsedLogEntry, error) {
 	parsedLogEntry := &ParsedLogEntry{}
-	rawLogEntry := strings.Split(rawData, DataSplitToken)
-	if len(rawLogEntry) != 2 {
+	rawLogEntry, ok := splitIntegrity(rawData)
+	if !ok {
 		return nil, ErrPlaintextIntegrityExtract
 	}
 	parsedLogEntry.RawData = []byte(rawLogEntry[0])
